@@ -277,6 +277,12 @@ class PeerCase:
                     ok = ch.start_tls(ctx) if r.get("tls_ok", True) else self._bad_handshake(ch)
                     slog["raw_first_after_auth"] = bytes(ch.raw_in[slog["raw_mark"]:slog["raw_mark"] + 8])
                     slog["ctl_handshake"] = ok
+                    if not ok and r.get("stay_plain_after_bad_tls"):
+                        # a peer that goes on as a plain FTP server: whatever the client still sends is logged as received in clear
+                        ch.plain_buf.clear()
+                        buf.clear()
+                        slog["stayed_plain_from"] = len(slog["lines"])
+                        continue
                     if not ok:
                         self._drop_data(st)
                         ch.close()
@@ -481,6 +487,8 @@ class PeerCase:
                 fam = socket.AF_INET6 if ":" in ep[0] else socket.AF_INET
                 sock = socket.socket(fam, socket.SOCK_STREAM)
                 sock.settimeout(IO_TIMEOUT)
+                if spec.get("rcvbuf"):
+                    sock.setsockopt(socket.SOL_SOCKET, socket.SO_RCVBUF, spec["rcvbuf"])     # back-pressure on the sender
                 try:
                     sock.bind((slog["addr"], 0))
                     sock.connect(ep)
@@ -496,6 +504,8 @@ class PeerCase:
                     d["done"] = True
                     return
                 ls.settimeout(IO_TIMEOUT)
+                if spec.get("rcvbuf"):
+                    ls.setsockopt(socket.SOL_SOCKET, socket.SO_RCVBUF, spec["rcvbuf"])
                 try:
                     sock, peer = ls.accept()
                 except (socket.timeout, OSError):
@@ -567,6 +577,8 @@ class PeerCase:
                         rec["eof"] = "closed-by-peer"
             elif spec["dir"] == "recv":
                 got = bytearray()
+                if spec.get("read_delay_s"):
+                    time.sleep(spec["read_delay_s"])      # a server that starts reading late: data queues up at the sender
                 while True:
                     if spec.get("read_pace_s"):
                         time.sleep(spec["read_pace_s"])
